@@ -77,6 +77,27 @@ func hang(res *Result, s *kernel.Sched, ncallers int, aborted func(task int) boo
 	return false
 }
 
+// serialStalled is set when a resolution run outside the run proper (a
+// reference, a prelude) did not come back; the run is then discarded and the
+// worker process abandoned, as for any stalled run.
+var serialStalled bool
+
+// serialResolve runs one resolution that is not part of the run proper - a
+// serial reference, a prelude - under a scheduler of its own (serial mode: the
+// caller runs until it blocks or ends, then the lowest-numbered runnable
+// goroutine of the code under test). Code under test that starts goroutines
+// would otherwise run them free there, and what the reference observes
+// (which of two racing goroutines asked the client first, how many client
+// calls were made) would not be a function of the tape.
+func serialResolve(t *kernel.Tape, r resolve.Resolver, ctx context.Context, vk resolve.VersionKey) (g *resolve.Graph, err error, pv any) {
+	s := kernel.NewSched(t, kernel.Config{Mode: kernel.ModeSerial})
+	if !s.Run([]func(*kernel.Task){func(*kernel.Task) { g, err, pv = resolveOnce(r, ctx, vk) }}) {
+		serialStalled = true
+		return nil, errBudget, nil
+	}
+	return g, err, pv
+}
+
 func hashStrings(parts ...string) string {
 	h := fnv.New64a()
 	for _, p := range parts {
